@@ -14,6 +14,7 @@ pub fn gens() -> Vec<Gen> {
     vec![
         Gen { name: "c03.genuine_lists", prop: "C03", tags: &["genuine", "unpack", "array", "src/verifier.rs"], cases: cases_genuine, check },
         Gen { name: "c03.smuggled_placeholder", prop: "C03", tags: &["smuggle", "reserved", "check_for_sd_claim", "issuer", "placeholder"], cases: cases_smuggled, check },
+        Gen { name: "c03.issuer_collision", prop: "C03", tags: &["collision", "cnf", "duplicate key", "unpack_from_digests"], cases: cases_issuer_collision, check },
         Gen { name: "c03.single_deviation", prop: "C03", tags: &["pad", "garbage", "forge", "dup", "parse", "src/lib.rs"], cases: cases_single, check },
         Gen { name: "c03.triples", prop: "C03", tags: &["hash_map", "create_hash_mappings", "digest"], cases: cases_triples, check },
         Gen { name: "c03.subsets", prop: "C03", tags: &["subset", "perm", "order"], cases: cases_subsets, check },
@@ -189,6 +190,44 @@ fn cases_smuggled(_rng: &mut Rng, sink: &mut dyn FnMut(J) -> bool) {
                 c["issuer_may_refuse"] = json!(true);
                 if !sink(c) {
                     return;
+                }
+            }
+        }
+    }
+}
+
+/// Credentials from the LIBRARY issuer in which a genuine disclosure names a member that the
+/// signed payload also carries in clear at the same level (hidden user `cnf` + holder key,
+/// hidden user `_sd_alg`). Presenting that disclosure must be rejected or leave the signed
+/// member untouched exactly as the processing rules say; refusal to issue also passes.
+fn cases_issuer_collision(_rng: &mut Rng, sink: &mut dyn FnMut(J) -> bool) {
+    let variants = vec![
+        json!({"iss": "https://issuer.example/i", "exp": FAR_EXP, "sub": "s", "cnf": {"jwk": {"kty": "oct", "k": "dXNlcg"}}}),
+        json!({"iss": "https://issuer.example/i", "exp": FAR_EXP, "sub": "s", "cnf": "user-cnf"}),
+        json!({"iss": "https://issuer.example/i", "exp": FAR_EXP, "sub": "s", "_sd_alg": "sha3-512"}),
+        json!({"iss": "https://issuer.example/i", "exp": FAR_EXP, "sub": "s", "_sd_alg": "sha-256", "cnf": {"x": 1}}),
+    ];
+    let mut n = 0usize;
+    for claims in variants {
+        for strategy in [Strategy::TopLevel, Strategy::AllLevels, Strategy::Custom(vec!["$.cnf".into(), "$._sd_alg".into()])] {
+            let hidden = crate::oracle::hidden_paths(&claims, &strategy).len();
+            let all: Vec<J> = (0..hidden).map(|i| json!({ "g": i })).collect();
+            let mut lists = vec![all.clone(), vec![]];
+            for i in 0..hidden {
+                lists.push(vec![json!({ "g": i })]);
+            }
+            for list in lists {
+                for holder in [Some("es256"), Some("eddsa"), None] {
+                    n += 1;
+                    let mut cfg = Cfg::simple(claims.clone(), strategy.clone()).variant(n);
+                    cfg.holder = holder.map(String::from);
+                    let mut c = cfg.to_json();
+                    c["list"] = J::Array(list.clone());
+                    c["issuer_may_refuse"] = json!(true);
+                    c["oracle_only"] = json!(true);
+                    if !sink(c) {
+                        return;
+                    }
                 }
             }
         }
@@ -406,7 +445,7 @@ pub fn check(case: &J) -> Verdict {
                         format!("verified_claims = {}", short(&jstr(&v), 600)),
                         format!("Err, or the processing result {}", short(&jstr(&w), 600)),
                     )
-                } else if v != expected_view {
+                } else if v != expected_view && !case["oracle_only"].as_bool().unwrap_or(false) {
                     fail(
                         format!("verified_claims = {}", short(&jstr(&v), 600)),
                         format!("Err, or the view of the original claims for the genuine disclosures presented: {}", short(&jstr(&expected_view), 600)),
